@@ -143,6 +143,20 @@ def run(chk):
                         return {">=": v >= c, ">": v > c, "<": v < c, "<=": v <= c}[op]
                     ok = (holds(K) == taken_when) and (holds(K - 1) != taken_when)
                     why = "`%s` aligns %s" % (" ".join(ifd.text(atom).split()), "sizes above %d only" % K if not ok else "")
+        # a branch that also handles vector types (16 bytes, natural alignment 16) cannot align to a constant below 16
+        if ok and K < 16:
+            pm = ifd.parent_map()
+            j = i
+            while j in pm:
+                up = pm[j]
+                ux = ifd.e(up)
+                if ux is not None and ux["k"] == "s:IfStmt" and ux.get("cond") is not None and j != ux["cond"]:
+                    rest = [c for c in ux.get("ch", []) if c != ux["cond"]]
+                    if rest and j == rest[0] and any((ifd.e(q) or {}).get("k") in ("call", "mcall") and (ifd.e(q) or {}).get("cn") == "is_vec" for q in ifd.walk(ux["cond"])):
+                        ok = False
+                        why = "the branch also handles vector types (`%s`): a 16-byte argument has to be aligned to 16 (AAPCS64 C.14: the larger of 8 and the natural alignment)" % " ".join(ifd.text(ux["cond"]).split())[:60]
+                        break
+                j = up
         nal += 1
         chk.ob(R3, "a64|align_up(stack_offset, %d)#%d" % (K, nal), ok, loc=ifd.loc(i),
                detail="stack arguments of exactly %d bytes must be aligned to %d: %s" % (K, K, why), key="stackalign|a64|%d#%d" % (K, nal))
